@@ -12,6 +12,7 @@ import (
 
 	elysapp "github.com/elys-network/elys/app"
 	ammtypes "github.com/elys-network/elys/x/amm/types"
+	ctypes "github.com/elys-network/elys/x/commitment/types"
 	lptypes "github.com/elys-network/elys/x/leveragelp/types"
 	mctypes "github.com/elys-network/elys/x/masterchef/types"
 	oracletypes "github.com/elys-network/elys/x/oracle/types"
@@ -644,10 +645,52 @@ var ProfileC18Params = func() *Profile {
 // ProfileC18Staking: the staking side of block processing (estaking's virtual Eden/EdenB delegations,
 // distribution hooks, the end-blocker's automatic withdrawals, epoch boundaries): stake, commit, partial
 // unstakes, uncommits and claims by the same few accounts over many blocks.
+// c18StakerLife: one account lives a staker's whole life in order – stake, commit its boost tokens, take a part of
+// them back, unstake a part, and again – instead of waiting for the grammar to line those four steps up for one
+// account. Every step is sized from the account's real state on the chain.
+func c18StakerLife(h *History, g *G) []*Op {
+	if g.Int("c18/life?", 0, 1) != 0 {
+		return nil
+	}
+	u := h.W.Accounts[0]
+	addr := u.Addr.String()
+	if g.Busy[addr] {
+		return nil
+	}
+	del := sdkmath.ZeroInt()
+	if val, err := sdk.ValAddressFromBech32(h.W.ValAddr); err == nil {
+		if d, err := h.W.App.StakingKeeper.GetDelegation(h.W.ReadCtx(), u.Addr, val); err == nil {
+			del = d.Shares.TruncateInt()
+		}
+	}
+	committed, claimed := g.S.CommittedOf(addr, paramtypes.EdenB), g.claimedOf(addr, paramtypes.EdenB)
+	pct := func(label string, of sdkmath.Int, lo, hi int) sdkmath.Int {
+		return maxInt(of.MulRaw(int64(g.Int(label, lo, hi))).QuoRaw(100), sdkmath.OneInt())
+	}
+	step, _ := h.Ext["c18-life-step"].(int)
+	var msg sdk.Msg
+	switch {
+	case !del.IsPositive():
+		msg = &ctypes.MsgStake{Creator: addr, Amount: sdkmath.NewInt(int64(g.Int("c18/life-stake", 1_000_000, 5_000_000_000))), Asset: paramtypes.Elys, ValidatorAddress: h.W.ValAddr}
+	case !committed.IsPositive() && claimed.IsPositive():
+		msg = &ctypes.MsgCommitClaimedRewards{Creator: addr, Amount: pct("c18/life-commit", claimed, 50, 100), Denom: paramtypes.EdenB}
+	case committed.IsPositive() && step%2 == 0:
+		msg = &ctypes.MsgUncommitTokens{Creator: addr, Amount: pct("c18/life-uncommit", committed, 1, 60), Denom: paramtypes.EdenB}
+		h.Ext["c18-life-step"] = step + 1
+	default:
+		msg = &ctypes.MsgUnstake{Creator: addr, Amount: pct("c18/life-unstake", del, 5, 95), Asset: paramtypes.Elys, ValidatorAddress: h.W.ValAddr}
+		h.Ext["c18-life-step"] = step + 1
+	}
+	g.Busy[addr] = true
+	h.Labels["c18-staker-life-steps"]++
+	return []*Op{{Signer: u, Kind: "c18.staker_life", Msg: msg}}
+}
+
 var ProfileC18Staking = func() *Profile {
 	p := *ProfileC18
 	p.Name = "faults-staking"
 	p.Spec = specDefault
+	p.ExtraOps = c18StakerLife
 	p.Weights = map[string]int{"commitment.stake": 12, "commitment.unstake": 14, "commitment.commit_claimed": 10, "commitment.uncommit": 8, "estaking.withdraw_rewards": 5,
 		"masterchef.claim": 4, "commitment.vest": 3, "commitment.cancel_vest": 2, "commitment.claim_vesting": 2, "amm.join": 3, "amm.swap_in": 4, "stablestake.bond": 2, "oracle.refresh": 3, "oracle.feed_price": 2}
 	p.Rule = "history with >=2 successful unstakes and >=1 successful stake and commit of Eden/EdenB, and >=1 block after a gap >= 1 day"
